@@ -234,6 +234,9 @@ impl SemaphoreState {
                     wait_node.task = Some(cx.waker().clone());
                     wait_node.state = PollState::Waiting;
                     self.waiters.add_front(wait_node);
+                    // Older waiters with smaller requests might fit into
+                    // the permits which this waiter could not use.
+                    self.wakeup_waiters();
                     Poll::Pending
                 }
             }
